@@ -63,7 +63,7 @@ def witness_ancestor_absent():
 	hits = [f for f in fails if 'ancestor(' in f['what'] and 'raises' in f['what']]
 	return bool(hits), (hits[0]['what'] if hits else 'no failing ancestor query')
 
-TRUSTED_BASE = ['Memoize.get(key, factory) returns the value of the first factory stored under the key (read from cache/memo2.py); de-indexing by regular expression, EntryPath element access and Nodes.by as assumed externals',
+TRUSTED_BASE = ['Memoize.get(key, factory) returns the value of the first factory stored under the key (proved from cache/memo2.py under C04: contracts Memo.get / Memoize.get); de-indexing by regular expression, EntryPath element access and Nodes.by as assumed externals',
 	'entry paths and tags do not contain "#"']
 ASSUMPTIONS = ['the bijection pluck ∘ full_pathfy, document-order ids, children/siblings/parent agreement with the tree and query-order independence of the resolved class are a bounded twin over random trees (recursion over third-party tree objects, dict-iteration code)',
 	'match_feature of the real node classes is a function of (tree, path) only: assumed; validated on real modules by the C09 monitor']
